@@ -208,10 +208,42 @@ impl<T> Store<T> {
 }
 
 impl Store {
-    pub(super) fn last_dependent_access(&self, operation: Operation) -> Option<&Access> {
-        match &self.entries[operation.obj.index] {
+    /// Returns the most recent access `operation` depends on that does not
+    /// happen before `dpor_vv`, i.e. the access it races with.
+    pub(super) fn last_dependent_access(
+        &self,
+        operation: Operation,
+        dpor_vv: &VersionVec,
+    ) -> Option<&Access> {
+        let mut last: Option<&Access> = None;
+
+        self.for_each_dependent_access(operation, |access| {
+            if access.happens_before(dpor_vv) {
+                return;
+            }
+
+            if last.map_or(true, |last| last.path_id() < access.path_id()) {
+                last = Some(access);
+            }
+        });
+
+        last
+    }
+
+    /// Joins the versions of all the accesses `operation` depends on
+    pub(super) fn join_dependent_accesses(&self, operation: Operation, dpor_vv: &mut VersionVec) {
+        self.for_each_dependent_access(operation, |access| dpor_vv.join(access.version()));
+    }
+
+    fn for_each_dependent_access<'a>(&'a self, operation: Operation, mut f: impl FnMut(&'a Access)) {
+        let access = match &self.entries[operation.obj.index] {
             Entry::Arc(entry) => entry.last_dependent_access(operation.action.into()),
-            Entry::Atomic(entry) => entry.last_dependent_access(operation.action.into()),
+            Entry::Atomic(entry) => {
+                entry
+                    .dependent_accesses(operation.action.into())
+                    .for_each(f);
+                return;
+            }
             Entry::Mutex(entry) => entry.last_dependent_access(),
             Entry::Condvar(entry) => entry.last_dependent_access(),
             Entry::Notify(entry) => entry.last_dependent_access(),
@@ -221,19 +253,24 @@ impl Store {
                 "object is not branchable {:?}; ref = {:?}",
                 obj, operation.obj
             ),
+        };
+
+        if let Some(access) = access {
+            f(access);
         }
     }
 
     pub(super) fn set_last_access(
         &mut self,
         operation: Operation,
+        thread: rt::thread::Id,
         path_id: usize,
         dpor_vv: &VersionVec,
     ) {
         match &mut self.entries[operation.obj.index] {
             Entry::Arc(entry) => entry.set_last_access(operation.action.into(), path_id, dpor_vv),
             Entry::Atomic(entry) => {
-                entry.set_last_access(operation.action.into(), path_id, dpor_vv)
+                entry.set_last_access(operation.action.into(), thread, path_id, dpor_vv)
             }
             Entry::Mutex(entry) => entry.set_last_access(path_id, dpor_vv),
             Entry::Condvar(entry) => entry.set_last_access(path_id, dpor_vv),
